@@ -136,14 +136,17 @@ def hook():
         return o_supd(self, dt)
     SignalsCollection.update = supd
 
-    o_app = Signal.append
+    # observations are recorded where they land (the price buffers): a collection may feed a signal through
+    # Signal.append or write to its buffers directly - both deliver the observation
+    from qstrader.signals.buffer import AssetPriceBuffers
+    o_bapp = AssetPriceBuffers.append
 
-    def sappend(self, asset, price):
+    def bappend(self, asset, price):
         tr = CUR[0]
         if tr is not None:
             tr.appends.append((tr.now, id(self), asset, price))
-        return o_app(self, asset, price)
-    Signal.append = sappend
+        return o_bapp(self, asset, price)
+    AssetPriceBuffers.append = bappend
 
     for side in ('get_bid', 'get_ask'):
         def mk2(orig, side):
@@ -323,7 +326,19 @@ def build(cfg, world, shared=None):
         signals = SignalsCollection(sigs, sig_handler)
         alpha = MomSignAlpha(signals, al['lookback'], universe)
     elif al['kind'] == 'sma_trend':
-        sigs['sma'] = SMASignal(start, sig_universe, lookbacks=[al['fast'], al['slow']])
+        sma_cls = SMASignal
+        if al.get('custom_class'):
+            class TallySMA(SMASignal):
+                """A user-defined signal: the library's SMA plus its own tally of what it was given."""
+                def __init__(self, *a_, **k_):
+                    self.tally = []
+                    super().__init__(*a_, **k_)
+
+                def append(self, asset, price):
+                    self.tally.append((asset, price))
+                    super().append(asset, price)
+            sma_cls = TallySMA
+        sigs['sma'] = sma_cls(start, sig_universe, lookbacks=[al['fast'], al['slow']])
         signals = SignalsCollection(sigs, sig_handler)
         alpha = SMATrendAlpha(signals, al['fast'], al['slow'], universe, short=not cfg['long_only'])
     elif al['kind'] == 'inv_vol':
@@ -757,8 +772,19 @@ def check_c16_session(cfg, world, tr, acc):
     if cfg['alpha'].get('mixed_universes'):
         acc.count('C16:sessions_whose_signals_have_different_universes')
     by = {}
-    for now, sid, asset, price in tr.appends:
-        by.setdefault((sid, asset), []).append((py(now), price))
+    bmap = {id(sg.buffers): id(sg) for sg in tr.signals.values()}
+    for now, bid_, asset, price in tr.appends:
+        if bid_ in bmap:
+            by.setdefault((bmap[bid_], asset), []).append((py(now), price))
+    # a user-defined signal class that overrides append() (here: one that keeps its own tally) is fed through it
+    for name_, sg in tr.signals.items():
+        tally = getattr(sg, 'tally', None)
+        if tally is not None:
+            landed = sum(1 for (s_, a_), v in by.items() if s_ == id(sg) for _ in v)
+            if len(tally) != landed:
+                V('C16', 'custom-signal-not-fed-through-append', 'signal %s is of a user-defined class that overrides append(): %d '
+                  'observations reached its buffers, its own append() saw %d' % (name_, landed, len(tally)))
+            acc.count('C16:custom_signal_class_sessions')
     names = tr.signal_names
     for sid, name in names.items():
         entries = entries_all if (name == 'sma' and cfg['alpha'].get('mixed_universes')) else traded_entries
@@ -1028,7 +1054,8 @@ def gen_cfg(rng, alpha_kinds=('fixed',), universe_kinds=('static',), max_days=25
         pass_sig = False
     if ak == 'sma_trend':
         fast = rng.choice([1, 2, 3, 5])
-        cfg['alpha'] = {'kind': 'sma_trend', 'fast': fast, 'slow': fast + rng.choice([1, 3, 8, 15])}
+        cfg['alpha'] = {'kind': 'sma_trend', 'fast': fast, 'slow': fast + rng.choice([1, 3, 8, 15]),
+                        'custom_class': rng.random() < 0.4}
     elif ak == 'inv_vol':
         cfg['alpha'] = {'kind': 'inv_vol', 'lookback': rng.choice([2, 5, 10, 20])}
         if rng.random() < (0.7 if signal_universes else 0.4):
